@@ -282,6 +282,11 @@ def np_asarray(interp, name, args, kw, st, node):
         interp.event("shape-conflict", node, st, what="precision-loss: conversion to reduced precision", a=name, b="float32")
         return fresh_arr(T("cast", x.term, tg), shape(x), x.labels, tg)
     if x.kind == "arr":
+        if dtv is not None and dtv.kind != "none" and name in ("numpy.asarray", "numpy.asanyarray", "numpy.ascontiguousarray", "numpy.asfortranarray"):
+            # a conversion with an explicit dtype hands back the very array only if it already has that dtype and a
+            # private copy otherwise: a distinct handle on the same storage, so that a write through it leaves the
+            # value seen through the original handle undetermined (rebind: 'stale') instead of updated
+            return x.replace()
         return x
     if x.kind == "unk":
         return V("arr", x.term, shape=None, orig=x.orig, labels=x.labels, loc=x.loc if x.loc is not None else fresh_id())
@@ -2726,6 +2731,18 @@ def np_einsum(interp, name, args, kw, st, node):
             return r
     # repeated index inside one operand: diagonal / trace
     cur, ci = ops[0], subs[0]
+    if len(ops) == 1 and len(ci) == 3 and ci[0] == ci[2] and ci[1] != ci[0] and out == ci[1] + ci[0] and hasattr(interp, "vtab") and shape(cur)[1].known():
+        # 'jij->ij': row i is the diagonal of the square slice T[:, i, :]
+        used_ = {x_.args[0] for x_ in cur.term.walk() if isinstance(x_, Term) and x_.op in ("lv", "comp", "loop") and x_.args}
+        lid = next(("C%d" % k_ for k_ in range(interp.cur().loop_depth + 1, interp.cur().loop_depth + 9) if "C%d" % k_ not in used_), None)
+        if lid is not None:
+            n_ = shape(cur)[1]
+            i_ = V("int", T("lv", lid), shape=(), labels=cur.labels, extra=("index", Dim(0), n_))
+            full_ = A._full_slice()
+            sl_ = A.subscript(interp, cur, interp.mk_tuple([full_, i_, full_]), st, node)
+            if shape(sl_) is not None and len(shape(sl_)) == 2:
+                el_ = np_diag(interp, "numpy.diagonal", [sl_], {}, st, node)
+                return A.mk_lifted(interp, lid, n_, el_)
     if len(ci) == 2 and ci[0] == ci[1]:
         if len(ops) != 1:
             return opaque()
